@@ -1,4 +1,5 @@
 import Lemmas.Parse
+import Lemmas.Terminator
 import Lemmas.Demo
 /-!
 # C04 — `--` ends option parsing; everything after it is returned untouched
@@ -76,6 +77,80 @@ example :
 example :
     (parseArgs Demo.ext .normal Demo.prog [b "--opt", b "--", b "--verbose"]).rem = [b "--verbose"] ∧
     ((parseArgs Demo.ext .normal Demo.prog [b "--opt", b "--", b "--verbose"]).P.opt 3).value = .s (b "d") := by
+  decide
+
+/-- **Terminator theorem, every prefix.**  Let `pre` be any argument list whose parse succeeds on its
+own (so nothing at its end still lacks a mandatory argument - the one situation in which a following
+`--` is a value).  Then for every tail, parsing `pre ++ ["--"] ++ tail` gives exactly the result of
+parsing `pre` - option store, selected command, unknown-option records, no error - with `tail`
+appended verbatim to the remaining arguments (and `--` itself in front of it when interpretation
+had already stopped inside `pre`: an earlier `--` or the require-order stop).  No hypothesis on mode,
+unknown-mode, require-order, or on what kind of option (optional value, multi-value, bundled) is open
+at the end of `pre`. -/
+theorem terminator_general (P : Prog) (pre tail : List Str)
+    (hf : (parseArgs ext mode P pre).err = none) :
+    parseArgs ext mode P (pre ++ dashdash :: tail) =
+      if (parseArgs ext mode P pre).ctx = .idle then
+        { (parseArgs ext mode P pre) with ctx := .stopped, rem := (parseArgs ext mode P pre).rem ++ tail }
+      else
+        { (parseArgs ext mode P pre) with rem := (parseArgs ext mode P pre).rem ++ dashdash :: tail } := by
+  have hnd := run_not_done ext mode P pre
+  have he : (run ext mode P pre).err = none := by
+    cases h : (run ext mode P pre).err with
+    | none => rfl
+    | some e =>
+      have := finish_err ext (run ext mode P pre) (by simp [h])
+      unfold parseArgs at hf
+      rw [this] at hf
+      simp [h] at hf
+  have hctx := finish_ctx ext _ hnd hf
+  unfold parseArgs at hf hctx ⊢
+  rw [run_append]
+  simp only [List.foldl]
+  rw [step_dashdash ext mode _ he hnd hf]
+  generalize finish ext (run ext mode P pre) = f at hf hctx ⊢
+  unfold closeWith
+  by_cases hi : f.ctx = .idle
+  · simp only [hi, ↓reduceIte]
+    rw [foldl_stopped ext mode _ tail (by simpa using hf) rfl]
+    rw [finish_stopped ext _ rfl]
+  · have hs : f.ctx = .stopped := by
+      rcases hctx with h | h
+      · exact absurd h hi
+      · exact h
+    simp only [hi, ↓reduceIte]
+    rw [foldl_stopped ext mode _ tail (by simpa [PState.addText] using hf) (by simpa [PState.addText] using hs)]
+    rw [finish_stopped ext _ (by simpa [PState.addText] using hs)]
+    simp [PState.addText, List.append_assoc]
+
+/-- field by field: nothing behind the `--` sets an option, selects a command, or is recorded as an
+unknown option; the tail comes back verbatim and in order -/
+theorem terminator_general_fields (P : Prog) (pre tail : List Str)
+    (hf : (parseArgs ext mode P pre).err = none) :
+    let a := parseArgs ext mode P pre
+    let r := parseArgs ext mode P (pre ++ dashdash :: tail)
+    r.P = a.P ∧ r.cur = a.cur ∧ r.unk = a.unk ∧ r.err = none ∧
+      (r.rem = a.rem ++ tail ∨ r.rem = a.rem ++ dashdash :: tail) := by
+  simp only
+  rw [terminator_general ext mode P pre tail hf]
+  by_cases hi : (parseArgs ext mode P pre).ctx = .idle
+  · simp [hi, hf]
+  · simp [hi, hf]
+
+/-- the excluded case is exactly the mandatory value: when the parse of `pre` alone fails only
+because its last occurrence lacks a mandatory argument, `--` is consumed as that argument -/
+example :
+    (parseArgs Demo.ext .normal Demo.prog [b "--name"]).err ≠ none ∧
+    ((parseArgs Demo.ext .normal Demo.prog [b "--name", b "--", b "--verbose"]).P.opt 0).value = .s (b "--") := by
+  decide
+
+/-- non-vacuity of `terminator_general` with an optional-value option open at the end of `pre`, with a
+multi-value option open, and after an earlier `--` -/
+example :
+    (parseArgs Demo.ext .normal Demo.prog [b "-v", b "--opt"]).err = none ∧
+    (parseArgs Demo.ext .normal Demo.prog [b "--list", b "a"]).err = none ∧
+    (parseArgs Demo.ext .normal Demo.prog [b "--", b "x"]).err = none ∧
+    (parseArgs Demo.ext .normal Demo.prog [b "--", b "x"]).ctx ≠ .idle := by
   decide
 
 end GoModel
